@@ -51,3 +51,115 @@ Contract(MODEL, 'evaluate_sizes.evaluate_union_size', ['C04', 'C03', 'C08'], uni
          modifies=['alignment', 'byte_size'],
          case_split=lambda ob: None,
          notes=['arm byte sizes below 2**40 (int(a/b) goes through a double)'])
+
+
+# ------------------------------------------------------------------ evaluate_struct_size
+
+def _dyn(vm, t):
+    """spec notion "the size of this member depends on the value" in model vocabulary:
+    dynamic array (bound, no size), greedy array, or a struct type that is not FIXED"""
+    bound = z3.Select(vm.heap_array('bound'), t)
+    size = z3.Select(vm.heap_array('size'), t)
+    greedy = z3.Select(vm.heap_array('greedy'), t)
+    kind = z3.Select(vm.heap_array('kind'), t)
+    return z3.Or(z3.And(bound, z3.Not(size)), greedy, kind != 0)
+
+
+def struct_setup(vm, module, env):
+    vm.contract.divisor_domain = ALIGNS
+    node = vm.fresh_ref('node', model_class(vm, module, 'Struct'))
+    members = new_members(vm, module, 'StructMember')
+    vm.path.objattrs[(str(node.t), '_value')] = members
+    j = z3.Int('j')
+    f, n = members.fn, members.length
+    H = lambda a: vm.heap_array(a)
+    al = lambda t: z3.Select(H('alignment'), t)
+    bs = lambda t: z3.Select(H('byte_size'), t)
+    rng = lambda x: z3.And(0 <= x, x < n)
+    vm.assume(z3.ForAll([j], z3.Implies(rng(j), z3.And(
+        z3.Not(none_attr(vm, 'alignment', f(j))), z3.Not(none_attr(vm, 'byte_size', f(j))),
+        _in(al(f(j)), ALIGNS), bs(f(j)) >= 0, _in(z3.Select(H('kind'), f(j)), (0, 1, 2)))), patterns=[f(j)]))
+    # ghost spec functions over the member sequence
+    OFF = z3.Function('OFF', z3.IntSort(), z3.IntSort())
+    vm.assume(OFF(0) == 0)
+    step = spec_int(vm, 'off_static_step', SInt(OFF(j)), SInt(al(f(j))), SInt(bs(f(j))))
+    vm.assume(z3.ForAll([j], z3.Implies(rng(j), OFF(j + 1) == step), patterns=[OFF(j + 1)]))
+    vm.assume(z3.ForAll([j], z3.Implies(z3.And(0 <= j, j <= n), OFF(j) >= 0), patterns=[OFF(j)]))
+    MAXA = vm.fresh('MAXA')
+    vm.assume(z3.ForAll([j], z3.Implies(rng(j), al(f(j)) <= MAXA), patterns=[f(j)]))
+    wa = vm.fresh('wa')
+    vm.assume(z3.If(n > 0, z3.And(rng(wa), al(f(wa)) == MAXA), MAXA == 1))
+    pre = {a: H(a) for a in ('alignment', 'byte_size', 'padding', 'kind', 'bound', 'size', 'greedy')}
+    pre['padding#none'] = H('padding#none')
+    cls_m = model_class(vm, module, 'StructMember')
+    st = {'args': [node], 'node': node, 'members': members, 'OFF': OFF, 'MAXA': MAXA, 'pre': pre, 'cls_m': cls_m,
+          'closure_env': {}}
+    vm.state = st
+    return st
+
+
+def _padspec_inner(vm, st, jt):
+    """documented padding representation of member jt (not the last one)"""
+    f = st['members'].fn
+    pre = st['pre']
+    al = lambda t: z3.Select(pre['alignment'], t)
+    a_j, a_n = al(f(jt)), al(f(jt + 1))
+    static_pad = spec_int(vm, 'pad_to', SInt(st['OFF'](jt + 1)), SInt(a_n))
+    from vf.pyvc import SBool
+    return spec_int(vm, 'pad_inner', None, SInt(a_j), SBool(_dyn(vm, f(jt))), SInt(a_n), SInt(static_pad))
+
+
+def struct_loop_inv(vm, env, k):
+    st = vm.state
+    f, n = st['members'].fn, st['members'].length
+    byte_size = vm.as_int(env.get('byte_size'))
+    prev = env.get('prev_member')
+    j = z3.Int('j')
+    pad = vm.heap_array('padding')
+    padn = vm.heap_array('padding#none')
+    inv = [
+        ('byte_size==OFF(k)', byte_size == st['OFF'](k)),
+        # prev_member is None only when there are no members
+        ('prev_member', (n == 0) if prev is None else (prev.t == z3.If(k > 0, f(k - 1), f(0)))),
+        ('paddings<k-1', z3.ForAll([j], z3.Implies(z3.And(0 <= j, j < k - 1), z3.And(
+            z3.Not(z3.Select(padn, f(j))), z3.Select(pad, f(j)) == _padspec_inner(vm, st, j))), patterns=[f(j)])),
+        ('frame:alignment,byte_size', z3.And(vm.heap_array('alignment') == st['pre']['alignment'],
+                                             vm.heap_array('byte_size') == st['pre']['byte_size'])),
+    ]
+    return inv
+
+
+def struct_post(vm, st, result):
+    from vf.pyvc import SBool
+    node, f, n = st['node'], st['members'].fn, st['members'].length
+    pre, OFF, MAXA = st['pre'], st['OFF'], st['MAXA']
+    j = z3.Int('j')
+    pad, padn = vm.heap_array('padding'), vm.heap_array('padding#none')
+    al0 = lambda t: z3.Select(pre['alignment'], t)
+    bs0 = lambda t: z3.Select(pre['byte_size'], t)
+    a = vm.load(node, 'alignment')
+    b = vm.load(node, 'byte_size')
+    anydyn = z3.Exists([j], z3.And(0 <= j, j < n, _dyn(vm, f(j))))
+    static_last = spec_int(vm, 'pad_to', SInt(OFF(n)), SInt(MAXA))
+    last = f(n - 1)
+    lastspec = spec_int(vm, 'pad_last', SBool(anydyn), SInt(al0(last)), SInt(bs0(last)), SInt(MAXA), SInt(static_last))
+    goals = [
+        ('alignment==A(struct)', z3.And(z3.Not(a.isnone), a.val == MAXA)),
+        ('byte_size==rup(OFF(n),A)', z3.And(z3.Not(b.isnone), b.val == spec_int(vm, 'rup', SInt(OFF(n)), SInt(MAXA)))),
+        ('inner-paddings', z3.ForAll([j], z3.Implies(z3.And(0 <= j, j < n - 1), z3.And(
+            z3.Not(z3.Select(padn, f(j))), z3.Select(pad, f(j)) == _padspec_inner(vm, st, j))), patterns=[f(j)])),
+        ('last-padding', z3.Implies(n > 0, z3.And(z3.Not(z3.Select(padn, last)), z3.Select(pad, last) == lastspec))),
+        ('frame:member sizes/alignments unchanged', z3.ForAll([j], z3.Implies(z3.And(0 <= j, j < n), z3.And(
+            z3.Select(vm.heap_array('alignment'), f(j)) == al0(f(j)),
+            z3.Select(vm.heap_array('byte_size'), f(j)) == bs0(f(j)))), patterns=[f(j)])),
+    ]
+    return goals
+
+
+Contract(MODEL, 'evaluate_sizes.evaluate_struct_size', ['C04', 'C03', 'C05', 'C08'], struct_setup, struct_post,
+         shapes=SHAPES, modifies=['alignment', 'byte_size', 'padding'],
+         loops={0: LoopAnn(struct_loop_inv, index='k', modifies=['padding'],
+                           locals_={'prev_member': lambda vm, name: SRef(vm.fresh(name, __import__('vf.pyvc', fromlist=['Ref']).Ref),
+                                                                         vm.state['cls_m'], True)})},
+         notes=['member alignments in {1,2,4,8} (established by evaluate_member_size / evaluate_array_and_optional_size / '
+                'evaluate_partial_padding_size contracts)'])
